@@ -5,6 +5,7 @@
 #include <errno.h>
 #include <stdlib.h>
 #include <limits.h>
+#include <stdint.h>
 #include <float.h>
 #include <math.h>
 #include <string.h>
@@ -152,6 +153,11 @@ extern MPT_INTERFACE(metatype) *_mpt_iterator_factor(MPT_STRUCT(value) *val)
 				errno = EINVAL;
 				return 0;
 			}
+			/* element count must fit */
+			if (iter == UINT32_MAX) {
+				errno = EINVAL;
+				return 0;
+			}
 			if (ret > 0) {
 				++cont;
 				ret = mpt_iterator_consume(it, 'd', &fd.base);
@@ -190,6 +196,11 @@ extern MPT_INTERFACE(metatype) *_mpt_iterator_factor(MPT_STRUCT(value) *val)
 				return 0;
 			}
 			if ((c = mpt_cuint32(&iter, str + 1, 0, 0)) < 0) {
+				errno = EINVAL;
+				return 0;
+			}
+			/* element count must fit */
+			if (c && iter == UINT32_MAX) {
 				errno = EINVAL;
 				return 0;
 			}
